@@ -7,6 +7,8 @@ NOTE = "mathematical ints; non-int element types are abstract sorts with operato
 P = {
  "C01": ("proof", "Ltoi (coordinate -> offset, per-axis bound check incl. negative coordinates, arity), CalcStrides and CalcStridesColMajor are proved against their postconditions for all lengths and values (unbounded loops with invariants)", "DESIGN.md 5 C01"),
  "C02": ("proof", "CheckSlice, SliceDetails proved for all inputs; AP.S proved in rank-bounded mode (every rank 0..3 quick / 0..4 thorough, all sizes, strides, offsets and slice triples symbolic): error iff an invalid range, start offset, window end, per-axis length = ceil((end-start)/step), stride scaling, axis dropping, frames. Two statement-level clauses fail and are listed as known findings (axis-0 rounding, empty range)", "DESIGN.md 5 C02"),
+ "C03": ("proof", "IsMonotonicInts, UnsafePermute (proved for all lengths), AP.T, Dense.T, Dense.UT and Dense.Transpose (rank-bounded: every rank 0..3 quick / 0..4 thorough, all extents and strides symbolic): a transposed view has shape/strides permuted by the axes, invalid or repeated axes yield an error, identity permutation is a no-op error, T followed by UT restores the access pattern, Transpose materialises exactly when a view is pending; the element-moving Transposer engine call is a trusted contract", "DESIGN.md 5 C03"),
+ "C05": ("proof", "FlatIterator (Next/NextValidity/NextValid/NextInvalid/Reset/Done/SetReverse/SetForward and the specialised next routines) and FlatMaskedIterator proved against a ghost visit-order specification: each call yields the offset of the next coordinate in row-major order (reverse: descending), exactly size elements are yielded before the noop error, Reset restores the initial state", "DESIGN.md 5 C05"),
  "C06": ("proof", "every generated arithmetic and min/max kernel (1224 functions: vector-vector, vector-scalar, scalar-vector, incr, iterator, iterator-incr, recv, scalar helpers, and the vecf32/vecf64 bodies they delegate to) is proved to apply the specified operator to the specified operands at the specified index, with frame; iterator kernels via one-step (loop step) contracts", "DESIGN.md 5 C06"),
  "C08": ("proof", "Sum, Prod, Reduce (left folds) and Argmax/Argmin (first index of the extreme, strict comparison) kernels proved against recursive fold specifications for all lengths", "DESIGN.md 5 C08"),
  "C11": ("proof", "every generated comparison kernel (1044 functions: bool and same-type results, vv/sv/vs, iterator variants) proved to deliver the truth value of Go's comparison of the specified operands in operand order, operands unchanged", "DESIGN.md 5 C11"),
